@@ -274,14 +274,27 @@ def r16_2(chk, sdf):
         ev = sdf.ev(q)
         chk.saw(SDF, q)
         ok_slice = ok_adv = False
+        bad_arg = []
         for e in ev.events:
             if e.kind == "call" and e.extra["args"]:
+                # the table's parser (element 1 of the row) is applied to exactly the field's columns, for every field alike
+                is_parser = e.target is not None and e.target.as_atom() and e.target.as_atom()[0] == "sub" and table in e.target.key() \
+                    and e.target.as_atom()[2] and e.target.as_atom()[2][0] == P.const(1)
+                aa = e.extra["args"][0].as_atom()
+                whole = bool(aa and aa[0] == "sub" and len(aa[2]) == 1 and aa[2][0].as_atom() and aa[2][0].as_atom()[0] == "slice")
+                if not whole and aa and aa[0] == "call" and call_name(aa) == ".strip" and not aa[2]:
+                    # the last field of a table (width None) is the rest of the line, stripped
+                    ra = aa[1].as_atom()[1].as_atom()
+                    whole = bool(ra and ra[0] == "sub" and len(ra[2]) == 1 and ra[2][0].as_atom() and ra[2][0].as_atom()[0] == "slice"
+                                 and ra[2][0].as_atom()[2].key() == "None")
                 for a in find_atoms(e.extra["args"][0], lambda a: a[0] == "slice"):
                     lo, hi = a[1], a[2]
                     d = hi - lo if hi.key() != "None" else None
                     if d is not None and d.as_atom() and d.as_atom()[0] == "sub" and d.as_atom()[1].as_atom() \
                             and d.as_atom()[1].as_atom()[1].key() == table:
                         ok_slice = True
+                if is_parser and not whole:
+                    bad_arg.append(str(e.extra["args"][0])[:100])
             if e.kind == "assign" and e.extra.get("aug") == "Add":
                 d = e.extra["delta"].as_atom()
                 if d and d[0] == "sub" and d[1].as_atom() and d[1].as_atom()[1].key() == table \
@@ -290,7 +303,7 @@ def r16_2(chk, sdf):
                     skip_guard = any("None" in c.key() and (c.as_atom() or ("",))[0] in ("is", "isnot")
                                      and "[1]" in c.key() for c, _ in e.guards)
                     ok_adv = not skip_guard
-        chk.ob("R16.2", SDF, q, f"each field is read from line[n : n + width] with width from {table}", ok_slice)
+        chk.ob("R16.2", SDF, q, f"each field is read from line[n : n + width] with width from {table}", ok_slice and not bad_arg, found=bad_arg[:2] or None)
         chk.ob("R16.2", SDF, q, "the offset advances by the field width for every field, parsed or not", ok_adv)
 
 
@@ -443,6 +456,14 @@ def r16_3(chk, sdf, mol):
         if e.kind == "assign" and e.name == "lines":
             lines_atom = e.value
     chk.need(lines_atom is not None, f"{rq}: variable 'lines' not found")
+    # the line numbers of a record are counted from the start of its chunk: `lines` is the chunk split into lines and nothing else (a
+    # strip() / lstrip() first swallows a blank title line and shifts every block by one)
+    la_ = lines_atom.as_atom()
+    piece = la_[1].as_atom()[1] if la_ and la_[0] == "call" and call_name(la_) in (".splitlines", ".split") else None
+    raw = piece is not None and not find_atoms(piece, lambda t: t[0] == "call" and call_name(t) in (".strip", ".lstrip", ".rstrip", ".replace", "re.sub")) \
+        and (call_name(la_) == ".splitlines" or (la_[2] and string_value(la_[2][0]) == "\n"))
+    chk.ob("R16.3", SDF, rq, "the lines of a record are the lines of its chunk as written (line k of the record is lines[k]): the chunk is not stripped "
+           "or rewritten before it is split", bool(raw), fingerprint="raw-lines", expected="compound.splitlines()", found=str(lines_atom)[-80:])
     LN = P.name("LINES")
     sub = {lines_atom.as_atom(): LN}
 
@@ -680,9 +701,16 @@ def r16_4(chk, mol, xyz):
         a = e.value.as_atom()
         if a and a[0] == "call" and a[1].key() == "cls" and len(a[2]) >= 2:
             e0, p0 = a[2][0].as_atom(), a[2][1]
-            ok = bool(e0 and e0[0] == "sub" and e0[2][0] == P.const(0) and "[1]" in p0.key()
-                      and "parse_xyz_string" in e0[1].key())
-    chk.ob("R16.4", MOL, q2, "from_xyz_string passes (elements, positions) of the parser to the constructor in that order", ok)
+            # positions: the parser's (N, 3) array as it is (np.asarray / np.array of it at most); squeeze / ravel / reshape change the
+            # shape for one atom or none
+            pa = p0.as_atom()
+            while pa and pa[0] == "call" and call_name(pa) in ("numpy.asarray", "numpy.array", "numpy.ascontiguousarray") and pa[2]:
+                p0 = pa[2][0]
+                pa = p0.as_atom()
+            ok = bool(e0 and e0[0] == "sub" and e0[2][0] == P.const(0) and pa and pa[0] == "sub" and pa[2] and pa[2][0] == P.const(1)
+                      and pa[1].key() == e0[1].key() and "parse_xyz_string" in e0[1].key())
+    chk.ob("R16.4", MOL, q2, "from_xyz_string passes (elements, positions) of the parser to the constructor in that order, the (N, 3) array "
+           "as parsed", ok, found=[str(e.value)[:140] for e in ev2.returns][:1])
 
 
 # ------------------------------------------------------------------------------------------------
